@@ -172,7 +172,7 @@ func TestVerif_C16(t *testing.T) {
 	nFull := verifmc.Pick(5, 6)    // sizes with the full arrival product
 	nMax := verifmc.Pick(6, 7)     // sizes up to here with three arrival patterns
 	reps := verifmc.Pick(3, 8)
-	repsMax := verifmc.Pick(2, 3)
+	repsMax := verifmc.Pick(2, 2)
 	nPrune := verifmc.Pick(5, 6)
 	r.Rule = fmt.Sprintf("every parent vector with n<=%d nodes x every primary/secondary marking x arrival index per block in {t0,t1} (n<=%d: full product; larger: all-equal and the two alternations) x EVERY parent-first insertion order of that labelled tree, each history repeated %d (n>%d: %d) times on fresh trees; BestBlockHash read twice after every single addition and after Prune of every block (n<=%d) and compared with the rule of the statement on a parent map; non-trivial = (tree, marking, arrival, inserted subset)", nMax, nFull, reps, nFull, repsMax, nPrune)
 	r.Assumption("hashes are a function of (label, parent hash, number, mark); the rule is evaluated by c16Spec on parent links, marks, arrival indices and those hashes")
